@@ -31,11 +31,11 @@ META = {
     'rule': ('classes: random trees of depth <= 2 with 1-5 fields per class, 3-22 key positions (required first, then default / default_factory, '
              'init=False anywhere; kinds leaf int/str/List[int], nested dataclass, List[dataclass] with 0-2 elements, Optional nested '
              'default None, nested default_factory); documents: the complete document and every subset of its key positions when '
-             '<= 10 positions (exhaustive), else 200 (quick) / 1500 (thorough) random subsets, deduplicated by resulting document; '
+             '<= 10 positions (exhaustive), else 200 (quick) / 1000 (thorough) random subsets, deduplicated by resulting document; '
              'both engines.  Non-trivial = at least one key deleted; distinct = distinct (class, engine, document).'),
     'trusted_base': ['model coq/model/FieldsMissing.v transcribes loaders.py cls_fromdict tail, errors.py MissingFields.__init__, '
                      'v1/loaders.py field loop + check_and_raise_missing_fields and dataclasses.__init__ (validated by correspondence)'],
-    'assumptions': ['keys of the document are the field names (no aliases / key-case transforms / JSON paths: see finding F23 for paths)',
+    'assumptions': ['keys of the document are the field names (no aliases / key-case transforms / JSON paths: see finding F42 for paths)',
                     'no recursive classes; field names pairwise distinct (wf_cls); unique class names'],
 }
 
@@ -320,8 +320,8 @@ def impl_show(res):
 def build_cases(ctx):
     r = ctx.sub_rng('classes')
     quick = ctx.tier == 'quick'
-    n_small, n_big = (80, 16) if quick else (160, 40)
-    n_rand = 200 if quick else 1500
+    n_small, n_big = (50, 10) if quick else (120, 24)
+    n_rand = 200 if quick else 1000
     counter = [0]
     classes = []
     tries = 0
@@ -373,10 +373,10 @@ def run(ctx):
 
     # ---- known findings: replay the witnesses --------------------------------------
     w = impl['witness'][0]
-    if ctx.finding('F23-path-default-shared'):
+    if ctx.finding('F42-path-default-shared'):
         still = bool(w.get('shared') or w.get('leaked') or 'err' in w.get('dataclass_default', {}))
-        ctx.known_finding('F23-path-default-shared', still_fails=still)
-        ctx.count(1, key='witness:F23', nontrivial=True)
+        ctx.known_finding('F42-path-default-shared', still_fails=still)
+        ctx.count(1, key='witness:F42', nontrivial=True)
 
     # ---- model ------------------------------------------------------------------------
     prelude = PRELUDE_HEAD + '\n'.join('Definition c%d : cls pstr pstr := %s.' % (i, coq_cls(c['spec']))
@@ -439,7 +439,7 @@ def replay(ctx, obj):
         print('implementation outcome: %s' % json.dumps(res)[:600])
         print('property: %s' % (bad or 'holds'))
         return bad is None
-    if obj.get('kind') == 'path_factory' or obj.get('finding') == 'F23-path-default-shared':
+    if obj.get('kind') == 'path_factory' or obj.get('finding') == 'F42-path-default-shared':
         w = ctx.impl('c09', {'witness': [{'kind': 'path_factory'}]})['witness'][0]
         print('witness outcome: %s' % json.dumps(w)[:600])
         return not (w.get('shared') or w.get('leaked') or 'err' in w.get('dataclass_default', {}))
